@@ -233,7 +233,21 @@ func runC10(c *Ctx) {
 		}
 		return vFieldLoad(clientReqT, "query", nil)(v) || vFieldLoadO(clientReqT, "query")(v)
 	}
-	sq := callsIn(f, "(*rt/client.request).SetQueryParam")
+	// setting a parameter of the request's query: SetQueryParam(k, v...) or, spelled out, r.query[k] = v
+	type valuesOp struct {
+		In       ssa.Instruction
+		Map, Key ssa.Value
+	}
+	var sq []valuesOp
+	for _, ci := range callsIn(f, "(*rt/client.request).SetQueryParam") {
+		_, a := callArgs(ci.Common())
+		sq = append(sq, valuesOp{ci, nil, a[0]})
+	}
+	for _, in := range instrs(f) {
+		if mu, ok := in.(*ssa.MapUpdate); ok && in.Parent() == f && (vFieldLoad(clientReqT, "query", nil)(mu.Map) || vFieldLoadO(clientReqT, "query")(mu.Map)) {
+			sq = append(sq, valuesOp{mu, mu.Map, mu.Key})
+		}
+	}
 	var tests []*ssa.Lookup
 	for _, in := range instrs(f) {
 		if lk, ok := in.(*ssa.Lookup); ok && lk.CommaOk && isCallerParams(lk.X) {
@@ -250,21 +264,48 @@ func runC10(c *Ctx) {
 			lk, ok := ex.Tuple.(*ssa.Lookup)
 			return ok && lk.CommaOk && isCallerParams(lk.X)
 		}, false)
-		c.obI("R10.2", sq[0], "caller-parameters-win", guardedBy(sq[0], nil, absent), "a static (pattern/base path) query parameter is set only when the caller's parameters do not contain that NAME (key presence, whatever its value — an explicitly empty value still wins)", "the static value can override a parameter the caller has set")
+		c.obI("R10.2", sq[0].In, "caller-parameters-win", guardedBy(sq[0].In, nil, absent), "a static (pattern/base path) query parameter is set only when the caller's parameters do not contain that NAME (key presence, whatever its value — an explicitly empty value still wins)", "the static value can override a parameter the caller has set")
 		// the key tested is the key being set
-		_, a := callArgs(sq[0].Common())
 		for _, lk := range tests {
-			c.obI("R10.2", lk, "same-name-tested", lk.Index == a[0], "the name tested is the name being set", "")
+			c.obI("R10.2", lk, "same-name-tested", lk.Index == sq[0].Key, "the name tested is the name being set", "")
 		}
 	}
 	ruleQuerySnapshotAfterAuth(c, "R10.2")
 	// pattern over base path
-	dels := callsIn(f, "(net/url.Values).Del")
-	addsq := callsIn(f, "(net/url.Values).Add")
+	// (Values.Del(k) or delete(m, k); Values.Add(k, v) or m[k] = append(m[k], v))
+	isValuesMap := func(v ssa.Value) bool {
+		t := typeStr(v.Type())
+		return t == "net/url.Values" || t == "map[string][]string"
+	}
+	var dels, addsq []valuesOp
+	for _, ci := range callsIn(f, "(net/url.Values).Del") {
+		recv, a := callArgs(ci.Common())
+		dels = append(dels, valuesOp{ci, recv, a[0]})
+	}
+	for _, ci := range callsIn(f, "(net/url.Values).Add") {
+		recv, a := callArgs(ci.Common())
+		addsq = append(addsq, valuesOp{ci, recv, a[0]})
+	}
+	for _, in := range instrs(f) {
+		if in.Parent() != f {
+			continue
+		}
+		if ci, ok := in.(*ssa.Call); ok && calleeName(&ci.Call) == "builtin delete" && len(ci.Call.Args) == 2 && isValuesMap(ci.Call.Args[0]) {
+			dels = append(dels, valuesOp{ci, ci.Call.Args[0], ci.Call.Args[1]})
+		}
+		if mu, ok := in.(*ssa.MapUpdate); ok && isValuesMap(mu.Map) && !(vFieldLoad(clientReqT, "query", nil)(mu.Map) || vFieldLoadO(clientReqT, "query")(mu.Map)) {
+			// m[k] = append(m[k], v)
+			if ap := asCall(mu.Value); ap != nil && calleeName(&ap.Call) == "builtin append" {
+				if lk, isLk := ap.Call.Args[0].(*ssa.Lookup); isLk && sameOrigins(lk.X, mu.Map) && lk.Index == mu.Key {
+					addsq = append(addsq, valuesOp{mu, mu.Map, mu.Key})
+				}
+			}
+		}
+	}
 	okPrec := len(dels) == 1 && len(addsq) == 1
 	if okPrec {
-		recvD, aD := callArgs(dels[0].Common())
-		recvA, aA := callArgs(addsq[0].Common())
+		recvD, aD := dels[0].Map, []ssa.Value{dels[0].Key}
+		recvA, aA := addsq[0].Map, []ssa.Value{addsq[0].Key}
 		okPrec = sameOrigins(recvD, recvA) && aD[0] == aA[0]
 		okB, _ := allOrigins(recvD, oCallWhere(-1, "(*net/url.URL).Query", func(q *ssa.Call) bool {
 			okk, _ := allOrigins(q.Call.Args[0], oCallWhere(0, "net/url.Parse", func(pp *ssa.Call) bool { return pp.Call.Args[0] == ssa.Value(paramOf(f, 1)) }))
@@ -273,7 +314,7 @@ func runC10(c *Ctx) {
 		okPrec = okPrec && okB
 		// present -> Del before Add
 		for _, l := range mapLoops(f, vOrigins(oCall(-1, "(*net/url.URL).Query"))) {
-			if !l.Header.Dominates(addsq[0].Block()) {
+			if !l.Header.Dominates(addsq[0].In.Block()) {
 				continue
 			}
 			present := factBool(func(v ssa.Value) bool {
@@ -284,7 +325,7 @@ func runC10(c *Ctx) {
 				lk, ok := ex.Tuple.(*ssa.Lookup)
 				return ok && lk.CommaOk && sameOrigins(lk.X, recvD)
 			}, false)
-			if pathExists(f, l.Next, addsq[0], present, isOneOf(dels[0])) {
+			if pathExists(f, l.Next, addsq[0].In, present, isOneOf(dels[0].In)) {
 				okPrec = false
 			}
 		}
